@@ -161,9 +161,10 @@ def integrate_spin(expr: Expr, target_idx: str, target_spin: str) -> Expr:
                         idx_map[spin].add(idx)
                 if not valid:
                     continue
+                # an index that occurs multiple times on the object can not
+                # have different spins -> the block does not contribute
                 if idx_map["a"] & idx_map["b"]:
-                    raise ValueError("Found invalid allowed spin block "
-                                     f"{block} for {obj}.")
+                    continue
                 obj_spin_idx_maps.append(idx_map)
             if not obj_spin_idx_maps:
                 term_vanishes = True
